@@ -513,6 +513,16 @@ func upBodyInner(u upCase, oracle string) vsched.Body {
 		if oracle == "C04" {
 			w.checkRegistry("[upgrade " + u.id() + "][end]")
 		}
+		if oracle == "C03" && u.context == "" {
+			// nobody answers the server's pings from here on: whatever became of the attempt, the
+			// heartbeat closes the session (the upgrade must not have switched it off)
+			x.Run(x.Now() + sPingInterval + sPingTimeout + 5*time.Second)
+			if cr := s.rec.CloseReasons(); len(cr) == 0 {
+				x.Fail("never-closed[upgrade %s word=%s]: no close event by t=%v although the peer has been silent past the heartbeat deadline; state=%s transport=%s (%s)", u.cand, u.word, x.Now(), s.rec.Sock.ReadyState(), s.rec.Sock.Transport().Name(), id)
+			} else if cr[0] != "ping timeout" && cr[0] != "transport error" && cr[0] != "transport close" && cr[0] != "parse error" {
+				x.Fail("close-reason[upgrade %s word=%s got=%q]: silent peer after the upgrade attempt, closed with %q (%s)", u.cand, u.word, cr[0], cr[0], id)
+			}
+		}
 		if oracle == "C03" {
 			rec := s.rec
 			ci := -1
